@@ -31,18 +31,19 @@ func (p *Program) Sources() map[string]string {
 
 // Feat selects which constructs the generator may emit.
 type Feat struct {
-	Spies     bool // spy filters/functions/tests (fallible callbacks)
-	MapLoops  bool // for over maps / hash literals / map filters
-	Include   bool
-	Inherit   bool
-	Macros    bool
-	Sandbox   bool
-	ErrorsPct int  // percentage of programs seeded with a failing construct
-	RelPaths  bool // template names in directories, ./ and ../ references
-	Dashes    bool // whitespace-control dashes
-	BigText   bool
-	SpyPrefix string
-	SpyPct    int // probability (percent) that an expression position is wrapped in a spy
+	Spies       bool // spy filters/functions/tests (fallible callbacks)
+	MapLoops    bool // for over maps / hash literals / map filters
+	Include     bool
+	Inherit     bool
+	Macros      bool
+	Sandbox     bool
+	ErrorsPct   int  // percentage of programs seeded with a failing construct
+	RelPaths    bool // template names in directories, ./ and ../ references
+	Dashes      bool // whitespace-control dashes
+	BigText     bool
+	SpyPrefix   string
+	BlockDashes bool // dashes on block tags too (many forms are rejected by the parser; used where error outcomes are compared as well)
+	SpyPct      int  // probability (percent) that an expression position is wrapped in a spy
 }
 
 type gen struct {
@@ -284,8 +285,13 @@ func (g *gen) dash() string {
 	return ""
 }
 
-func (g *gen) open(tag string) string { return "{% " + tag + " %}" }
-func (g *gen) print(e string) string  { return "{{" + g.dash() + " " + e + " " + g.dash() + "}}" }
+func (g *gen) open(tag string) string {
+	if g.f.BlockDashes {
+		return "{%" + g.dash() + " " + tag + " " + g.dash() + "%}"
+	}
+	return "{% " + tag + " %}"
+}
+func (g *gen) print(e string) string { return "{{" + g.dash() + " " + e + " " + g.dash() + "}}" }
 func (g *gen) body(d int) string {
 	n := g.r.Range(1, 3)
 	var sb strings.Builder
